@@ -454,6 +454,7 @@ def compare_call(S, scn, ci, c, m):
                 mine = [d_ for d_ in dists if d_["e"].get("i") == fi]
                 others = [s_ for blk in scn["blocks"] for s_ in blk["stmts"] if s_["k"] != "dist"]
                 if len(mine) == 1 and scn["fields"][fi]["rand"] and b["rs"]["n_hard"] == 1 + len(mine[0]["weights"]) \
+                        and b["rs"]["n_soft"] == 0 \
                         and not (c["call"].get("inline")):
                     import re
                     flat = [x for g in impl_groups for x in g]
@@ -525,7 +526,9 @@ def compare_call(S, scn, ci, c, m):
             if a["specSat"] is False:
                 of("returned-but-unsatisfiable", {"randset": a["fields"]}, "SolveFailure (no assignment satisfies the hard constraints)")
             if OPTS["bounds"] and a.get("starved"):
-                of("feasible-value-outside-inferred-range", {"starved": a["starved"], "bounds": {n: c["bounds"].get(n) for n in a["fields"]}},
+                # where a non-random operand evaluates differently on Python integers (bound inference) and as a bit-vector
+                # (solver) the loss of values is known finding F21; anywhere else it is a new violation
+                of("F21:python-int-bounds-vs-solver-semantics" if a.get("pyDiverges") else "feasible-value-outside-inferred-range", {"starved": a["starved"], "bounds": {n: c["bounds"].get(n) for n in a["fields"]}},
                    "the inferred range of a field contains every value it takes in some solution")
             if a["softHonoured"] is False:
                 of("soft-not-greedy-maximal", {"values": dict(zip(names, c["after"])), "reference_kept": a["softRef"], "soft": a["soft"]},
